@@ -36,12 +36,13 @@ ASSUME AbsFreeAtZeroCoeff
 
 (* ---- replay cases ------------------------------------------------------- *)
 Values == UNION {[1..n -> (-K)..K] : n \in 1..MaxN}
-Coeffs(n, kind) == [i \in 1..n |-> IF kind = 1 THEN 1 ELSE i]    \* all ones / 1,2,3,4
+Coeffs(n, kind) == [i \in 1..n |-> IF kind = 1 THEN 1 ELSE IF kind = 2 THEN i ELSE (IF i = 1 THEN 0 ELSE i)]
+                   \* all ones / 1,2,3,4 / 0,2,3,4 (a term switched off: its helper is not pinned, its weight is 0)
 ProdCases == {[k |-> "prod", f |-> f, expect |-> And(f)] : f \in Factors}
 AbsCases  == {[k |-> "abs", v |-> v, c |-> Coeffs(Len(v), kind),
                expect |-> SumF([i \in DOMAIN v |-> Coeffs(Len(v), kind)[i] * Abs(v[i])]),
                helpers |-> [i \in DOMAIN v |-> Abs(v[i])]]
-              : v \in Values, kind \in {1, 2}}
+              : v \in Values, kind \in {1, 2, 3}}
 ASSUME ndJsonSerialize(IOEnv.OUT_FILE, SetToSeq(ProdCases) \o SetToSeq(AbsCases))
 ASSUME PrintT(<<"V", "CASES", Cardinality(ProdCases), Cardinality(AbsCases)>>)
 
